@@ -68,6 +68,15 @@ func c06ShowWire(data []byte) string {
 	return strings.Join(parts, ",")
 }
 
+// the negotiated peer address the IPCP object remembers; while IPCP has never been started (FSM Initial)
+// nothing is sent and nothing adopted, what the handler notes for itself is not an observable of the property
+func c06PeerNeg(i *ppp.IPCP) string {
+	if i.FSM().State() == ppp.Initial {
+		return "-"
+	}
+	return c06ShowAddr(i.PeerConfig().Address)
+}
+
 func c06ShowAddr(ip net.IP) string {
 	if ip == nil {
 		return "nil"
@@ -241,7 +250,7 @@ func c06Lns(f []string) string {
 			up = 1
 		}
 		parts = append(parts, fmt.Sprintf("%s up=%d a=%s pa=%s pn=%s", drain(), up, c06ShowAddr(s.IPv4Address),
-			c06ShowAddr(s.IPCP.PeerConfig().PeerAddress), c06ShowAddr(s.IPCP.PeerConfig().Address)))
+			c06ShowAddr(s.IPCP.PeerConfig().PeerAddress), c06PeerNeg(s.IPCP)))
 	}
 	return strings.Join(parts, " | ")
 }
